@@ -11,14 +11,27 @@ Proved here (all states, no bound):
   half-edges come in triples (`3·inner faces`), by arithmetic;
 * the generated `convex_hull_size` (T0, from `triangulation.rs`) equals the number of outer
   half-edges under the same counting hypothesis.
-`C02_partial`: that the DCEL operations and algorithms of spade preserve `WF`/`Tiles` is not proved
-here (see `Spade/Dcel` for the operation-level model); it is decided per run by R2.
+* **on the insertion model M** (`Spade/Algo/Insert.lean`: every DCEL operation used by insertion,
+  `locate`, hull extension and Lawson legalisation, transliterated from the Rust; compared with
+  the implementation's arrays index for index after every `insert_with_hint` — clause `C02:model`):
+  Euler's relation is an invariant of every insertion history, whatever the points and hints
+  (`C02_euler_invariant_on_model`), because every operation adds `(ΔV, ΔE, ΔF)` with
+  `2(ΔV + ΔF) = ΔE` (`Bal`).
+`C02_partial`: preservation of the link invariants and of the geometric clauses (`CcwFaces`,
+`Tiles`) by the operations is not proved; removal, CDT and bulk paths are not modelled. These are
+decided per run by R2.
 -/
 import Spade.Spec
 import Spade.Proofs.GeomLemmas
 import Spade.Generated.Leaf
 import Spade.Examples
+import Spade.Proofs.InsertInv
 namespace Spade
+
+/-- the empty triangulation as a model state -/
+def emptyModel : St :=
+  { pos := #[], data := #[], vOut := #[], he := #[], flag := #[], fAdj := #[none], isCdt := false,
+    counts := ⟨0, 0, 1, 0, 0, 0, true, none⟩ }
 
 theorem C02_wf_check_iff (s : St) : decide s.WF = true ↔ s.WF := decide_eq_true_iff
 theorem C02_ccw_check_iff (s : St) : decide s.CcwFaces = true ↔ s.CcwFaces := decide_eq_true_iff
@@ -55,6 +68,26 @@ theorem C02_convex_hull_size (E2 F h : Nat) (hF : 1 ≤ F) (hpart : E2 = h + 3 *
     simp only [this]
     simp
     omega
+
+/-- Euler's relation (`2V + 2F = E + 4`) survives every insertion history of the model M -/
+theorem C02_euler_invariant_on_model (ops : List (Pt × Nat × Nat)) (t : St)
+    (h : (emptyModel).insertAllM ops = some t) :
+    (t.nV = 0 ∧ t.he.size = 0 ∧ t.fAdj.size = 1) ∨ (1 ≤ t.nV ∧ t.EulerM) :=
+  St.insertAllM_euler ops emptyModel t (Or.inl ⟨rfl, rfl, rfl⟩) h
+
+/-- one insertion of the model: balanced growth or a pure payload update -/
+theorem C02_insert_effect_on_model (s : St) (p : Pt) (d hint : Nat) (t : St) (v : Nat)
+    (h : s.insertM p d hint = some (t, v)) :
+    St.IsUpdate s t v d ∨
+    (v = s.nV ∧ ((s.nV = 0 ∧ St.Grows s t 1 0 0) ∨ (1 ≤ s.nV ∧ St.Bal s t 1))) :=
+  St.insertM_effect s p d hint t v h
+
+/-- non-vacuity: a concrete insertion history runs through the model and ends in a state that
+satisfies the whole spec -/
+example : ∃ t, emptyModel.insertAllM [(⟨0,0⟩,0,0), (⟨2,0⟩,1,0), (⟨2,2⟩,2,0), (⟨0,2⟩,3,1), (⟨1,3⟩,4,2), (⟨1,1⟩,5,7)] = some t ∧
+    t.LinksOK ∧ t.AnchorsOK ∧ t.CcwFaces ∧ t.GloballyDelaunay ∧ t.nV = 6 := by
+  refine ⟨_, rfl, ?_⟩
+  decide +kernel
 
 /-- non-vacuity: states dumped from the real implementation satisfy the whole spec -/
 example : exFive.WF ∧ exFive.CcwFaces ∧ exFive.Tiles ∧ exFive.Euler ∧ exFive.CountsOK := by decide
